@@ -330,6 +330,17 @@ BelemItems(ev) ==
   IN << Item("compose", same("compose", "e_compose")), Item("inverse", same("inverse", "e_inverse")),
         Item("between", same("between", "e_between")), Item("log", same("log", "e_log")), Item("exp", same("exp", "e_exp")),
         Item("rplus", same("rplus", "e_rplus")), Item("lminus", same("lminus", "e_lminus")) >>
+\* element<i>() aliases exactly the i-th segment: a write through it changes that segment and nothing else
+\* (owning bundle, and a Map view of a bundle over a buffer with 4 guard cells holding 777 on each side)
+BWriteItems(ev) ==
+  LET g == ev.g  P == g.parts  i == ev.idx + 1
+      lo == Off(Rep, P, i)  n == Rep(P[i])
+      expect == [k \in 1..Rep(g) |-> IF k > lo /\ k <= lo + n THEN ev.elem[k - lo] ELSE ev.before[k]]
+      guard == FInt(777)
+      viewOK == /\ \A k \in 1..4 : D(ev.viewbuf[k]) = guard /\ D(ev.viewbuf[Rep(g) + 4 + k]) = guard
+                /\ SubSeq(ev.viewbuf, 5, Rep(g) + 4) = expect
+  IN << Item("owning", IF ev.after = expect THEN 0 ELSE 2000000000), Item("view", IF viewOK THEN 0 ELSE 2000000000) >>
+
 \* Jacobians of a bundle are block diagonal with EXACT zeros outside the element blocks
 OffBlockZero(g, m, RowOp(_), ColOp(_)) ==
   \A i \in 1..Len(m) : \A j \in 1..Len(m[1]) :
@@ -351,6 +362,7 @@ Items(ev) ==
   CASE ev.e = "layout"    -> LayoutItems(ev)
     [] ev.e = "alias"     -> AliasItems(ev)
     [] ev.e = "belem"     -> BelemItems(ev)
+    [] ev.e = "bwrite"    -> BWriteItems(ev)
     [] ev.e = "compose"   -> ComposeItems(ev)
     [] ev.e = "inverse"   -> InverseItems(ev)
     [] ev.e = "act"       -> ActItems(ev)
